@@ -31,7 +31,7 @@ var regRenderers = []regRenderer{
 
 // checkReg runs one register renderer on the world's files (already written) and compares with the model.
 func checkReg(c *core.Ctx, srv *run.Server, w *World, rr regRenderer, extra []string, days gen.Log, withFoods, withTotals bool) (run.Result, bool) {
-	args := withBase(append(append([]string{}, rr.args...), extra...)...)
+	args := w.base(append(append([]string{}, rr.args...), extra...)...)
 	if w.Layout != "2006/01/02" {
 		args = append([]string{"--date-format", w.Layout}, args...)
 	}
@@ -77,7 +77,7 @@ func runC02(c *core.Ctx) {
 		srv := pool.Servers[wk]
 		r := c.Rng("world", i)
 		layout := []string{"2006/01/02", "2006/01/02", "2006-01-02", "02.01.2006", "Jan 2 2006"}[r.Intn(5)]
-		w := newWorld(r, worldOpts{Exact: i%2 == 0, Hostile: i%3 == 0, Notes: true, Layout: layout})
+		w := newWorld(r, worldOpts{Exact: i%2 == 0, Hostile: i%3 == 0, Notes: true, Layout: layout, AltComment: true})
 		srv.Write(w.Files())
 		nontrivial := false
 		for _, d := range w.Log {
@@ -93,7 +93,7 @@ func runC02(c *core.Ctx) {
 				c.Nontrivial(w.BookText, w.LogText, rr.name)
 			}
 			if i%40 == ri {
-				cargs := withBase(rr.args...)
+				cargs := w.base(rr.args...)
 				if w.Layout != "2006/01/02" {
 					cargs = append([]string{"--date-format", w.Layout}, cargs...)
 				}
@@ -116,7 +116,7 @@ func runC02(c *core.Ctx) {
 					sel = append(sel, dd)
 				}
 			}
-			args := withBase("summary", d.Date.Format(w.Layout))
+			args := w.base("summary", d.Date.Format(w.Layout))
 			if w.Layout != "2006/01/02" {
 				args = append([]string{"--date-format", w.Layout}, args...)
 			}
